@@ -626,6 +626,14 @@ func makeHistory(probe string, k famKey, fe *famEntry, exts extList, hseed int64
 			}
 		},
 		func() {
+			add(V["comment-then-newline"])
+			add(I["comment-swallows-close"])
+			add(V["comment-then-newline"])
+			add(V["typename-alias"])
+			add(I["typename-alias-upper-case"])
+			add(V["typename-alias"])
+		},
+		func() {
 			add(I["unbalanced-missing-close"])
 			add(V["base"])
 			add(I["unknown-operationName-single"])
